@@ -3,6 +3,7 @@
 package main
 
 import (
+	"strconv"
 	"bufio"
 	"bytes"
 	"fmt"
@@ -22,7 +23,7 @@ import (
 // the client sent.
 func TestVerifC07Main(t *testing.T) {
 	L := ev.Begin("C07", "c07-main", "exploration",
-		"main.newHTTPProxy (configuration from config.Load; with and without a trace key configured) in front of a recording upstream: method {GET, POST, PUT} x query {none, plain, with ';' separators, with an invalid escape, 'trace=1'} x body {none, url-encoded form, multipart form, JSON} x Trace header {absent, present}; oracle: the upstream sees the same method, query string and body bytes, and the client gets the upstream's 200. non-trivial = requests with a body or a query")
+		"main.newHTTPProxy (configuration from config.Load; with and without a trace key configured) in front of a recording upstream: method {GET, POST, PUT} x query {none, plain, with ';' separators, with an invalid escape, 'trace=1'} x body {none, url-encoded form, multipart form, JSON} x Trace header {absent, present}; oracle: the upstream sees the same method, query string and body bytes, and the client gets the upstream's 200; plus upstream statuses {200..999, incl. 204, 304, 599, 600, 701, 999} with the request statistics of a running fabio switched on: same status and body at the client. non-trivial = requests with a body or a query")
 	type seenReq struct {
 		method, query string
 		body          []byte
@@ -34,6 +35,14 @@ func TestVerifC07Main(t *testing.T) {
 		mu.Lock()
 		last = &seenReq{r.Method, r.URL.RawQuery, b}
 		mu.Unlock()
+		if st := r.Header.Get("X-Answer-Status"); st != "" {
+			code, _ := strconv.Atoi(st)
+			w.WriteHeader(code)
+			if code != 204 && code != 304 {
+				w.Write([]byte("status body"))
+			}
+			return
+		}
 		w.Write([]byte("ok"))
 	}))
 	defer up.Close()
@@ -122,6 +131,38 @@ func TestVerifC07Main(t *testing.T) {
 						}
 					}
 				}
+			}
+		}
+	}
+	// whatever status the upstream answers with is the client's to see, with the statistics of a running fabio switched on
+	{
+		cfg, err := config.Load([]string{"fabio"}, nil)
+		if err != nil {
+			panic("VERIF-INFRA: " + err.Error())
+		}
+		cfg.Proxy.Strategy, cfg.Proxy.Matcher, cfg.GlobCacheSize = "rr", "prefix", 10
+		hp := newHTTPProxy(cfg, c19Stats())
+		for _, code := range []int{200, 201, 204, 299, 304, 404, 418, 503, 599, 600, 701, 999} {
+			req, _ := http.ReadRequest(bufio.NewReader(bytes.NewBufferString(fmt.Sprintf("GET /x HTTP/1.1\r\nHost: foo.com\r\nX-Answer-Status: %d\r\n\r\n", code))))
+			req.RemoteAddr = "10.1.1.1:999"
+			rec := httptest.NewRecorder()
+			L.Case()
+			L.NontrivialKey(fmt.Sprint("status", code))
+			d := map[string]interface{}{"upstream_status": code}
+			msg, stack, pan := ev.Guard(func() { hp.ServeHTTP(rec, req) })
+			if pan {
+				d["panic"], d["stack"] = msg, stack
+				L.Violation("request-path-panics", d)
+				continue
+			}
+			want := "status body"
+			if code == 204 || code == 304 {
+				want = ""
+			}
+			L.Outcome(fmt.Sprint(rec.Code))
+			if rec.Code != code || rec.Body.String() != want {
+				d["client_status"], d["client_body"] = rec.Code, rec.Body.String()
+				L.Violation("upstream-status-or-body-changed", d)
 			}
 		}
 	}
